@@ -1,7 +1,7 @@
 (* C13 - distance, magnitude difference, circle inversion: structural part.  Pinned theorems only. *)
 From Coq Require Import ZArith List Bool Reals Lra.
 From Flocq Require Import Core BinarySingleNaN.
-Require Import GV.FloatBase GV.FloatLemmas GV.AngleM GV.AngleProofs GV.GeonumM GV.GeonumProofs GV.TraitsM GV.NewProofs GV.CtorProofs GV.PiBounds GV.TrigProofs GV.DotValue GV.DistValue GV.DirProofs GV.SymProofs.
+Require Import GV.FloatBase GV.FloatLemmas GV.AngleM GV.AngleProofs GV.GeonumM GV.GeonumProofs GV.TraitsM GV.NewProofs GV.CtorProofs GV.PiBounds GV.TrigProofs GV.DotValue GV.DistValue GV.DirProofs GV.SymProofs GV.ClosureProofs GV.SumUpper GV.SumDir GV.MetricProofs.
 Open Scope R_scope.
 
 (* for EVERY libm and every input: distance_to is at angle exactly 0 and its magnitude is never NaN or negative *)
@@ -60,3 +60,51 @@ Theorem C13_symmetry : forall (L : libm) (u : R) a b, cos_acc L u -> u <= / 1000
     <= 2 * (sqrt Bnd * (1 + / 9007199254740992) + / 9007199254740992 * sqrt D + bpow radix2 (-1075)).
 Proof. exact distance_symmetry. Qed.
 Print Assumptions C13_symmetry.
+
+(* the law-of-cosines radicand IS the squared Euclidean distance of the Cartesian points
+   (px g, py g) = |g| (cos, sin)(dir g), REAL pi *)
+Theorem C13_law_of_cosines : forall a b,
+  R_ (mag a) * R_ (mag a) + R_ (mag b) * R_ (mag b) - 2 * R_ (mag a) * R_ (mag b) * cos (dir (ang b) - dir (ang a))
+  = (px a - px b) * (px a - px b) + (py a - py b) * (py a - py b).
+Proof. exact law_of_cosines. Qed.
+Print Assumptions C13_law_of_cosines.
+
+(* distance_to is the Euclidean distance of the Cartesian points within dist_tol + 2^-53 e *)
+Theorem C13_distance_euclid : forall (L : libm) (u : R) a b, cos_acc L u -> u <= / 1000 ->
+  canonp (rem (ang a)) -> canonp (rem (ang b)) -> (0 <= blade (ang a))%Z -> (0 <= blade (ang b))%Z ->
+  fin (dist_sq L a b) ->
+  let e := sqrt ((px a - px b) * (px a - px b) + (py a - py b) * (py a - py b)) in
+  Rabs (R_ (mag (distance_to L a b)) - e) <= dist_tol u a b + / 9007199254740992 * e.
+Proof. exact distance_euclid. Qed.
+Print Assumptions C13_distance_euclid.
+
+(* the triangle inequality, up to the three value tolerances *)
+Theorem C13_triangle : forall (L : libm) (u : R) a b c, cos_acc L u -> u <= / 1000 ->
+  canonp (rem (ang a)) -> canonp (rem (ang b)) -> canonp (rem (ang c)) ->
+  (0 <= blade (ang a))%Z -> (0 <= blade (ang b))%Z -> (0 <= blade (ang c))%Z ->
+  fin (dist_sq L a b) -> fin (dist_sq L b c) -> fin (dist_sq L a c) ->
+  R_ (mag (distance_to L a c)) * (1 - / 9007199254740992)
+    <= (R_ (mag (distance_to L a b)) + R_ (mag (distance_to L b c))) * (1 + / 4503599627370496)
+       + 2 * (dist_tol u a b + dist_tol u b c + dist_tol u a c).
+Proof. exact distance_triangle. Qed.
+Print Assumptions C13_triangle.
+
+(* distance_to(a, b) equals |a - b| (general path of the subtraction) within twice the value tolerance *)
+Theorem C13_equals_sub : forall (L : libm) (u : R) a b, cos_acc L u -> u <= / 1000 ->
+  canonp (rem (ang a)) -> canonp (rem (ang b)) -> (0 <= blade (ang a))%Z -> (0 <= blade (ang b))%Z ->
+  aeqb (ang a) (negate (ang b)) = false ->
+  aeqb (add_vv (ang a) (new one one)) (negate (ang b)) || aeqb (add_vv (negate (ang b)) (new one one)) (ang a) = false ->
+  fin (dist_sq L a b) -> fin (gadd_rad L a (gnegate b)) ->
+  let S := R_ (mag a) * R_ (mag a) + R_ (mag b) * R_ (mag b) in
+  let e := sqrt ((px a - px b) * (px a - px b) + (py a - py b) * (py a - py b)) in
+  let Bnd := S * (u + 10003 / 100000000000000) + 10 * bpow radix2 (-1075) in
+  Rabs (R_ (mag (distance_to L a b)) - R_ (mag (gsub_vv L a b)))
+    <= 2 * (sqrt Bnd * (1 + / 9007199254740992) + / 9007199254740992 * e + bpow radix2 (-1075)).
+Proof. exact distance_equals_sub. Qed.
+Print Assumptions C13_equals_sub.
+
+Theorem C13_dist_tol_def : forall (u : R) a b, dist_tol u a b =
+  sqrt ((R_ (mag a) * R_ (mag a) + R_ (mag b) * R_ (mag b)) * (u + 10003 / 100000000000000) + 10 * bpow radix2 (-1075))
+    * (1 + / 9007199254740992) + bpow radix2 (-1075).
+Proof. reflexivity. Qed.
+Print Assumptions C13_dist_tol_def.
